@@ -101,6 +101,8 @@ structure Frame where
       covered; the flag survives the closing of its list, so after a prefix it may be set although a fresh run starts
       with it unset. -/
   flag : Bool := false
+  /-- the nodes B's store holds at the start (only the entries `1..c` matter: they are never touched) -/
+  oldNodes : List Node := []
 
 /-- the byte shift -/
 def Frame.d (F : Frame) : Int := (F.p.length : Int)
@@ -397,3 +399,4 @@ theorem skipBlankLines_sh (F : Frame) : ∀ (fA fB : Nat) (lines : Int) (r : Rea
           exact ⟨rfl, rfl, c, hri1⟩
 
 end GM.Blocks.Sh
+
